@@ -82,11 +82,18 @@ pub fn make_base(ps: u64, commits: usize, seed: u64, scratch: &Scratch) -> Resul
         }
         t.ops.insert(1, Op::Put { h: 0, k: K::lit(b"commit"), v: V { tag: i as u64 + 1, len: 9 }, how: How::Slice, vhow: How::Slice });
     }
+    base_from_history(h, scratch)
+}
+
+/// Execute `h` with the code under test and record the file image and the last two committed states.
+pub fn base_from_history(h: History, scratch: &Scratch) -> Result<Base, String> {
+    let ps = h.pagesize;
+    let commits = h.txs.len();
     let path = scratch.fresh("base");
     let out = exec::run_history(&h, &ExecCfg::default(), &path);
     if out.aborted {
         let _ = std::fs::remove_file(&path);
-        return Err(format!("base history failed: {:?}", out.violations.first().map(|v| v.detail.clone())));
+        return Err(crate::report::workload_failure(out.violations.first(), "base history was cut short"));
     }
     let image = std::fs::read(&path).map_err(|e| e.to_string())?;
     let _ = std::fs::remove_file(&path);
@@ -294,7 +301,11 @@ pub fn run(ctx: &Ctx) -> Shard {
         let m: Mutation = serde_json::from_value(doc["case"]["mutation"].clone()).expect("mutation");
         let ps = doc["case"]["pagesize"].as_u64().unwrap_or(1024);
         let seed = doc["case"]["base_seed"].as_u64().unwrap_or(ctx.seed);
-        let base = make_base(ps, m.commits, seed, &scratch).expect("base");
+        let base = if doc["case"]["kind"] == "c12-small" {
+            base_from_history(serde_json::from_value(doc["case"]["history"].clone()).expect("history"), &scratch).expect("base")
+        } else {
+            make_base(ps, m.commits, seed, &scratch).expect("base")
+        };
         shard.evaluations += 1;
         prepare(&base, &path);
         if let Verdict::Bad(sig, detail) = judge(&base, &m, &path, true) {
@@ -308,7 +319,7 @@ pub fn run(ctx: &Ctx) -> Shard {
             let base = match make_base(ps, commits, ctx.seed, &scratch) {
                 Ok(b) => b,
                 Err(e) => {
-                    shard.inconclusive(e);
+                    shard.inconclusive_or_workload(ctx, &format!("[base file with {} commits]", commits), &e, &serde_json::json!({"kind": "c12-base", "pagesize": ps, "commits": commits, "base_seed": ctx.seed}));
                     continue;
                 }
             };
@@ -385,6 +396,63 @@ pub fn run(ctx: &Ctx) -> Shard {
                     }
                     if shard.samples.len() < 2 && m.bytes.len() == 1 && semantic(m.bytes[0].0) {
                         shard.sample(serde_json::json!({"pagesize": ps, "commits_in_file": commits, "header_slot": slot, "offset": m.bytes[0].0, "new_byte": m.bytes[0].1, "region": region(m.bytes[0].0)}));
+                    }
+                }
+            }
+        }
+    }
+    // ---- files that are exactly as long as their contents (never grown), for every small initial page
+    // count, and files whose newest commit changed nothing: a reduced mutation set on each
+    let put = |i: u64| Op::Put { h: 0, k: K::lit(b"commit"), v: V { tag: i + 1, len: 9 }, how: How::Slice, vhow: How::Slice };
+    let mut small: Vec<(String, History)> = Vec::new();
+    for np in 4..=16usize {
+        for commits in 1..=3u64 {
+            let txs: Vec<TxScript> = (0..commits).map(|i| TxScript { ops: vec![Op::TxGetOrCreate { k: K::lit(b"marker"), how: How::Slice }, put(i)], end: End::Commit, reopen: false }).collect();
+            small.push((format!("{} initial pages, {} commits", np, commits), History { pagesize: 1024, num_pages: np, strict: false, populate: false, txs, origin: "small".into() }));
+        }
+    }
+    for (what, last_ops) in [("empty", vec![]), ("reads only", vec![Op::TxBuckets, Op::TxGet { k: K::lit(b"marker"), how: How::Slice }, Op::Get { h: 0, k: K::lit(b"commit") }]), ("get_or_create of an existing bucket", vec![Op::TxGetOrCreate { k: K::lit(b"marker"), how: How::Slice }])] {
+        for commits in 1..=3u64 {
+            let mut txs: Vec<TxScript> = (0..commits).map(|i| TxScript { ops: vec![Op::TxGetOrCreate { k: K::lit(b"marker"), how: How::Slice }, put(i)], end: End::Commit, reopen: false }).collect();
+            txs.push(TxScript { ops: last_ops.clone(), end: End::Commit, reopen: false });
+            small.push((format!("{} commits then a write transaction that changes nothing ({})", commits, what), History { pagesize: 1024, num_pages: 8, strict: false, populate: false, txs, origin: "noop-last".into() }));
+        }
+    }
+    for (label, h) in small {
+        let base = match base_from_history(h, &scratch) {
+            Ok(b) => b,
+            Err(e) => {
+                shard.inconclusive_or_workload(ctx, &format!("[{}]", label), &e, &serde_json::json!({"kind": "c12-small-base", "label": label}));
+                continue;
+            }
+        };
+        shard.count("small_and_noop_base_files", 1);
+        prepare(&base, &path);
+        let commits = base.history.txs.len();
+        for slot in 0..2u64 {
+            let mut muts: Vec<Mutation> = Vec::new();
+            muts.push(Mutation { commits, slot, bytes: (0..1024usize).map(|o| (o, 0u8)).collect(), what: "page-zeroed".into() });
+            muts.push(Mutation { commits, slot, bytes: (0..512usize).map(|o| (o, 0u8)).collect(), what: "first-sector-zeroed".into() });
+            for off in [8usize, 32, 36, 40, 48, 56, 64, 72, 80, 88, 95, 96, 103] {
+                let orig = base.image[(slot * 1024) as usize + off];
+                for v in [orig ^ 0xff, orig.wrapping_add(1)] {
+                    muts.push(Mutation { commits, slot, bytes: vec![(off, v)], what: "single byte".into() });
+                }
+            }
+            for m in muts {
+                idx += 1;
+                if idx % ctx.nshards != ctx.shard {
+                    continue;
+                }
+                shard.evaluations += 1;
+                match judge(&base, &m, &path, idx % 4 == 0) {
+                    Verdict::Ok(kind) => {
+                        shard.count(&format!("outcome:{}", kind), 1);
+                        shard.count("mutations_on_small_and_noop_base_files", 1);
+                    }
+                    Verdict::Bad(sig, detail) => {
+                        let replay = serde_json::json!({"kind": "c12-small", "label": label, "mutation": m, "history": base.history});
+                        shard.violation(ctx, &sig, &format!("[{}] {}", label, detail), &replay);
                     }
                 }
             }
